@@ -336,6 +336,12 @@ pub fn independent_decode(c: Cont, w: &Written) -> Result<Indep, String> {
 				if p.len() == 4 { Some([p[0], p[1], p[2], p[3]]) } else { None }
 			});
 			let mut header_issues = header_vs_tiles("the MBTiles metadata table", &d.tiles, zooms, bounds);
+			// MBTiles 1.3, "Content": the metadata table MUST contain the rows name and format
+			for row in ["name", "format"] {
+				if !d.metadata.contains_key(row) {
+					header_issues.push(format!("the MBTiles metadata table lacks the mandatory row '{row}'"));
+				}
+			}
 			if d.metadata.contains_key("bounds") && bounds.is_none() {
 				header_issues.push(format!("the MBTiles metadata row 'bounds' is not four numbers: {:?}", d.metadata["bounds"]));
 			}
